@@ -1,13 +1,15 @@
 \* C09 quick tier - exhaustive instance of Http (module MC_Http).
-\*   Servers  S1 S2 S3 (defined in MC_Http.tla; the driver runs one TLC per server and adds
-\*            VERIF_SEED-drawn random servers through a generated module MC_HttpRun)
+\*   Servers  S1 S2 S3 S5 S7 (defined in MC_Http.tla: every transport in the default order; GET first with explicit
+\*            content types; body transports before POST before GET; POST alone; POST first - the driver runs one
+\*            TLC per server and adds VERIF_SEED-drawn random servers through a generated module MC_HttpRun)
 \*   Methods  GET POST HEAD OPTIONS PUT          ReqCTs  absent json graphql form multipart other bad
 \*   Accepts  10 lists (AcceptsQuick)            Upgrade header present / absent
+\*   carry    where the document travels: POST body; other methods url | body | both (URL = document, body = a mutation)
 \*   Docs     10 documents (DocsQuick) x operationName in {absent, each name, unknown}
 \*            x validity {ok, invalid, varerr} + {parse, noop} x {absent, unknown} + {undecEnv, undecVars}
-\*   src      inline | apq (persisted-query hash; GET and POST application/json only)
-\*   Requests with an Upgrade header or a method other than GET/POST carry the probe documents only.
-\* Measured: 78,420 requests (26,140 per server), 469,910 distinct states, depth 9, 18 s with -workers 1
+\*   src      inline | apq (persisted-query hash; GET via URL and POST application/json only)
+\*   Requests with an Upgrade header, a method other than GET/POST, or GET with a body carry the probe documents only.
+\* Measured: 162,200 requests (32,440 per server), 827,020 distinct states, depth 9, 25 s with -workers 1
 \* (the Export action constraint prints one line per request and needs -workers 1); every action taken.
 CONSTANTS
   Servers <- ServersQuick
